@@ -25,6 +25,7 @@ RULES = [
     Rule('C07.R4', 'same-tick ordering buckets and a consistent note-state index', 3),
     Rule('C07.R5', 'reported length is the latest row time plus the one-second post-song delay', 2),
     Rule('C07.R6', 'the delay to the next row is converted with the tempo in force after the row\'s events were handled', 1),
+    Rule('C07.R7', 'running status is updated by every channel voice message; each track\'s time line starts from the initial tempo', 2),
 ]
 EXPLANATION = ('AST/CFG agreement rules over BW_MidiSequencer::handleEvent, parseEvent, MidiTrackRow::sortEvents, buildTimeLine and the interface wiring in '
                'opnmidi_sequencer.cpp: switch-case -> callee tables with argument order, data-byte counts per status, guard facts of the gating returns, '
@@ -264,6 +265,7 @@ def analyse(facts, tier):
                     add = True
     obls.append(Obl('C07.R5', bt.name, 'length = max row time + post-song delay', bt.loc, 'discharged' if (mx and add) else 'finding', why='max over rows, then += m_postSongWaitDelay' if (mx and add) else 'length computation differs (max=%s, add=%s)' % (mx, add)))
     obls += r6(facts)
+    obls += r7(facts)
     return obls
 
 
@@ -311,4 +313,67 @@ def r6(facts):
         out.append(Obl('C07.R6', pe.name, show(x)[:60], st['loc'], 'finding' if stale else 'discharged',
                        why=('the tempo used for the delay after this row is a %s, read before the row\'s events are handled: a Set Tempo event takes effect one row late' % what) if stale else
                        'tempo read (%s) after every handleEvent call of the row' % what))
+    return out
+
+
+
+def r7(facts):
+    """(a) parseEvent stores the status byte of every channel voice message (the store dominates the switch on the event type), so a data
+    byte that follows a Program Change / Channel Pressure is decoded with the right running status.
+    (b) buildTimeLine: a local that the per-track loop updates from the tempo events is declared inside that loop — each track is timed
+    from the song's initial tempo, not from where the previous track ended."""
+    out = []
+    pe = facts.fn(SEQ + '::parseEvent')
+    sp = [p for p in pe.params if p['n'] == 'status']
+    store = None
+    sw = None
+    for b, j, st in pe.cfg.stmts():
+        for x in walk(st['s']):
+            ap = assign_parts(x)
+            if ap and sp and strip(ap[0]).get('id') == sp[0]['id'] and strip(ap[1]).get('k') == 'DeclRefExpr' and short(strip(ap[1])['n']) == 'byte':
+                store = (b, j, st)
+    for bid, blk in pe.cfg.blocks.items():
+        if blk.get('term') == 'SwitchStmt' and 'cond' in blk and short(strip(blk['cond']).get('n', '')) == 'evType':
+            sw = bid
+    if sw is None or not sp:
+        raise build.AnalysisBroken('C07.R7: switch(evType) / status parameter of parseEvent not found')
+    ok = store is not None and (store[0] == sw or pe.cfg.block_dominates(store[0], sw))
+    out.append(Obl('C07.R7', pe.name, 'status = byte for every channel voice message', store[2]['loc'] if store else pe.loc, 'discharged' if ok else 'finding',
+                   why='the store dominates the switch on the event type' if ok else
+                   'the running status is not updated for every channel voice message: a data byte after such a message is decoded with a stale status and the rest of the track is misread'))
+    bt = facts.fn(SEQ + '::buildTimeLine')
+    loops = []
+    def rec(t):
+        if isinstance(t, dict):
+            if t.get('k') == 'ForStmt' and t.get('cond') is not None and 'trackCount' in show(t['cond']):
+                loops.append(t)
+            for k2 in ('body', 'then', 'else', 'sub', 'init'):
+                v = t.get(k2)
+                if isinstance(v, (dict, list)):
+                    rec(v)
+        elif isinstance(t, list):
+            for y in t:
+                rec(y)
+    rec(bt.tree)
+    n = 0
+    for l in loops:
+        assigned = {}
+        declared = set()
+        for x in walk(l.get('body')):
+            if x.get('k') == 'DeclStmt':
+                for v in x.get('decls', []):
+                    declared.add(v['id'])
+            ap = assign_parts(x)
+            if ap and strip(ap[0]).get('k') == 'DeclRefExpr' and not strip(ap[0]).get('parm') and mentions(ap[1], lambda y: 'tempo' in show(y).lower()):
+                assigned[strip(ap[0])['id']] = (short(strip(ap[0])['n']), x.get('ln'))
+        for vid, (nm, ln) in assigned.items():
+            if 'tempo' not in nm.lower():
+                continue
+            n += 1
+            okk = vid in declared
+            out.append(Obl('C07.R7', bt.name, 'per-track tempo variable ' + nm, '%s:%s' % (bt.file, ln), 'discharged' if okk else 'finding',
+                           why='declared (and initialised from m_tempo) inside the per-track loop' if okk else
+                           '%s is updated by the tempo events of one track and carried into the next: every later track is timed from the tempo the previous one ended with, so event times and the song length come out wrong' % nm))
+    if n < 1:
+        raise build.AnalysisBroken('C07.R7: the per-track tempo variable of buildTimeLine was not found')
     return out
